@@ -90,6 +90,9 @@ func Corpus() *Env {
 	add(&Decl{Name: "Mq1", Kind: "record", Includes: []string{"Bq"}, Fields: []Field{req("m1", P("str")), req("k1", P("i32"))}})
 	add(&Decl{Name: "Mq2", Kind: "record", Includes: []string{"Bq"}, Fields: []Field{req("m2", P("str"))}})
 	add(&Decl{Name: "Mq3", Kind: "record", Includes: []string{"Bq"}, Fields: []Field{req("m3", P("bool")), opt("o3", P("str"))}})
+	// a record that inherits record-typed fields (nested partial updates through an include)
+	add(&Decl{Name: "InclNested", Kind: "record", Includes: []string{"Nested"}, Fields: []Field{
+		opt("x", P("i32")), opt("own", R("Inner"))}})
 	add(&Decl{Name: "MapKeys", Kind: "record", Fields: []Field{req("m", M(P("str"))), opt("mi", M(P("i32")))}})
 	return e
 }
